@@ -2,6 +2,8 @@
 
 from __future__ import annotations
 
+from ..vloop import texc
+
 import asyncio
 from typing import Any
 
@@ -169,8 +171,8 @@ def w_outgoing() -> Part:
         w.loop.run_until(30)
         if not t.done():
             part.viol("outgoing-never-finishes", "send_telegram pending", {"kind": "outgoing"})
-        elif t.exception():
-            part.viol("harness:outgoing", repr(t.exception()), {"kind": "outgoing"})
+        elif texc(t):
+            part.viol("harness:outgoing", repr(texc(t)), {"kind": "outgoing"})
     return part
 
 
